@@ -47,7 +47,7 @@ def handle (case impl : String) : Except String (String × String) :=
       let texts := decList texts
       let implParts := impl.splitOn ";"
       let implBits := (implParts.getD 1 "").toList.map (· == '1')
-      if kind == "t" then
+      if kind == "t" || kind == "w" then
         let e := decodeTerm cfg.exactMode term
         let modelBits := texts.map (termVerdict cfg e)
         let specBits := texts.map (termSpecB cfg term)
